@@ -22,7 +22,7 @@
 (define-fun wf_marks ((v cty.Value)) Bool
   (=> (is_marked v)
       (and (not ((_ is box<cty.marker>) (inner_v v)))
-           (> (marks_ptr v) 0)
+           (not (= (marks_ptr v) 0))
            (MapC<Any~Unit>.ok (select F.MapC<Any~Unit> (marks_ptr v)))
            (>= (MapC<Any~Unit>.card (select F.MapC<Any~Unit> (marks_ptr v))) 1))))
 ; the i-th mark set of a []ValueMarks slice
@@ -31,4 +31,16 @@
 (define-fun markmap_at ((s Slice) (i Int)) MapC<Any~Unit>
   (select F.MapC<Any~Unit> (select (select F.Arr<Int> (Slice.ptr s)) (+ (Slice.off s) i))))
 (define-fun in_any_markset ((s Slice) (n Int) (k Any)) Bool
-  (exists ((i Int)) (and (<= 0 i) (< i n) (select (markset_at s i) k))))
+  (exists ((j Int)) (! (and (<= (Slice.off s) j) (< j (+ (Slice.off s) n))
+                         (select (fmarks (select (select F.Arr<Int> (Slice.ptr s)) j)) k))
+     :pattern ((select (select F.Arr<Int> (Slice.ptr s)) j)))))
+; every mark set of the slice prefix is a finite map.
+; Quantification is over absolute array positions so that the trigger contains no arithmetic.
+(define-fun marksets_ok ((s Slice) (n Int)) Bool
+  (forall ((j Int)) (! (=> (and (<= (Slice.off s) j) (< j (+ (Slice.off s) n)))
+        (MapC<Any~Unit>.ok (select F.MapC<Any~Unit> (select (select F.Arr<Int> (Slice.ptr s)) j))))
+     :pattern ((select (select F.Arr<Int> (Slice.ptr s)) j)))))
+(define-fun marksets_empty ((s Slice) (n Int)) Bool
+  (forall ((j Int)) (! (=> (and (<= (Slice.off s) j) (< j (+ (Slice.off s) n)))
+        (= (MapC<Any~Unit>.card (select F.MapC<Any~Unit> (select (select F.Arr<Int> (Slice.ptr s)) j))) 0))
+     :pattern ((select (select F.Arr<Int> (Slice.ptr s)) j)))))
